@@ -193,6 +193,20 @@ Theorem C18_units_recognised_ascii_case : forall upper, ascii_agree upper ->
   spelled upper u ps.
 Proof. exact ascii_case_spelled. Qed.
 
+(* the usual file: every checked place carries a spelling (any case) of ONE class k -> index_unit
+   = k.  [classes_disjoint upper]: upper-casing does not identify spellings of different classes
+   of the table; for today's table it follows from [ascii_agree] and the oracle fact that
+   upper-casing keeps a non-ASCII character in the (two Cyrillic) non-ASCII spellings. *)
+Theorem C18_units_recognised_all : forall upper, classes_disjoint upper ->
+  forall l k ps, In (k, ps) depth_units ->
+  check_units upper l <> [] ->
+  (forall v, In v (check_units upper l) -> spelled upper v ps) ->
+  read_index_unit upper None l = Some k.
+Proof. exact units_recognised_all. Qed.
+Theorem C18_units_table_disjoint : forall upper,
+  ascii_agree upper -> nonascii_kept upper -> classes_disjoint upper.
+Proof. exact classes_disjoint_today. Qed.
+
 (* conflict: units spelled in two different classes -> undefined *)
 Theorem C18_units_conflict : forall upper l k1 ps1 k2 ps2,
   In (k1, ps1) depth_units -> In (k2, ps2) depth_units -> k1 <> k2 ->
@@ -314,6 +328,16 @@ Example C18_ex_unit_other :
 Proof. vm_compute. reflexivity. Qed.
 Example C18_ex_ascii_agree : ascii_agree ascii_up.
 Proof. intros s _. reflexivity. Qed.
+(* the hypotheses of C18_units_table_disjoint are satisfiable (by the ASCII-only upper) *)
+Example C18_ex_nonascii_kept : nonascii_kept ascii_up.
+Proof.
+  intros k ps p Hin Hp A. revert k ps p Hin Hp A.
+  assert (H : forallb (fun e => forallb (fun p => implb (negb (is_ascii p)) (negb (is_ascii (ascii_up p)))) (snd e)) depth_units = true)
+    by (vm_compute; reflexivity).
+  intros k ps p Hin Hp A. rewrite forallb_forall in H. specialize (H (k, ps) Hin).
+  rewrite forallb_forall in H. specialize (H p Hp). rewrite A in H. simpl in H.
+  apply negb_true_iff. exact H.
+Qed.
 
 (* 1000 ft = 304.8 m; 1200 tenth-inches = 10 ft = 3.048 m *)
 Example C18_ex_depth :
@@ -335,6 +359,8 @@ Print Assumptions C18_units_places.
 Print Assumptions C18_units_recognised.
 Print Assumptions C18_units_listed.
 Print Assumptions C18_units_recognised_ascii_case.
+Print Assumptions C18_units_recognised_all.
+Print Assumptions C18_units_table_disjoint.
 Print Assumptions C18_units_conflict.
 Print Assumptions C18_units_unrecognised.
 Print Assumptions C18_units_table_current.
